@@ -14,6 +14,8 @@ the loader rewrites:
   N11 with contextlib.suppress(E): B  ->  try: B except E: pass
   N12 flag = True; loop (flag = False; break ...); if flag: T   ->   loop ... else: T      (flag used nowhere else)
   N14 d = {}; for t in it: d[K] = V  ->  d = {K: V for t in it}
+  N15 while True: t = a.b; if C(t): break; REST  ->  while not C(a.b): t = a.b; REST   (leading read-only aliases)
+  N16 for t in it: if C: return True;  return False  ->  return any(C for t in it)   (and the all() dual)
   N13 x = list(E); x.sort(**kw)  ->  x = sorted(E, **kw)
   N6  while True: if X: break; rest    ->  while not X: rest         (loops without else whose first statement is the exit test)
 Line numbers of the surviving statements are preserved, so reports still point at the original source lines.
@@ -35,6 +37,18 @@ _ORDER_NEG = {ast.Lt: ast.GtE, ast.GtE: ast.Lt, ast.Gt: ast.LtE, ast.LtE: ast.Gt
 def _intish(e) -> bool:
     return (isinstance(e, ast.Call) and isinstance(e.func, ast.Name) and e.func.id == "len") or \
         (isinstance(e, ast.Constant) and isinstance(e.value, int) and not isinstance(e.value, bool))
+
+
+def _pure_path(e) -> bool:
+    """a name or an attribute chain rooted at a name: reading it has no effect"""
+    while isinstance(e, ast.Attribute):
+        e = e.value
+    return isinstance(e, ast.Name)
+
+
+def _clone(e):
+    import copy
+    return copy.deepcopy(e)
 
 
 def _negate(t: ast.expr) -> ast.expr:
@@ -99,6 +113,39 @@ class _N(ast.NodeTransformer):
         self.generic_visit(node)
         # N6: while True: if X: break; rest   ->   while not X: rest
         if isinstance(node.test, ast.Constant) and node.test.value is True and not node.orelse and node.body:
+            # N15 (loop rotation): leading `t = <attribute chain / name>` statements in front of the exit test are read-only
+            # aliases; the exit test is hoisted into the loop test with the aliases expanded, the aliases stay in the body:
+            #   while True: t = a.b; if C(t): break; REST      ->      while not C(a.b): t = a.b; REST
+            k = 0
+            alias = {}
+            while k < len(node.body):
+                st = node.body[k]
+                if isinstance(st, ast.Assign) and len(st.targets) == 1 and isinstance(st.targets[0], ast.Name) and _pure_path(st.value) \
+                        and st.targets[0].id not in alias:
+                    alias[st.targets[0].id] = st.value
+                    k += 1
+                else:
+                    break
+            if alias and k < len(node.body) - 0:
+                tail = node.body[k:]
+                lead = []
+                for st in tail:
+                    if isinstance(st, ast.If) and not st.orelse and len(st.body) == 1 and isinstance(st.body[0], ast.Break):
+                        lead.append(st)
+                    else:
+                        break
+                # the aliases must not be re-bound later in the body, and what they read must not be written by the tests
+                rebound = {t.id for st in tail for n_ in ast.walk(st) for t in ([n_] if isinstance(n_, ast.Name) and isinstance(n_.ctx, ast.Store) else [])}
+                if lead and len(tail) > len(lead) and not (rebound & set(alias)):
+                    class _Exp(ast.NodeTransformer):
+                        def visit_Name(self_, n_):
+                            if isinstance(n_.ctx, ast.Load) and n_.id in alias:
+                                return ast.copy_location(_clone(alias[n_.id]), n_)
+                            return n_
+                    tests = [_negate(_Exp().visit(_clone(g.test))) for g in lead]
+                    test = tests[0] if len(tests) == 1 else ast.BoolOp(op=ast.And(), values=tests)
+                    body = node.body[:k] + tail[len(lead):]
+                    return ast.copy_location(ast.While(test=ast.copy_location(test, lead[0].test), body=body, orelse=[]), node)
             guards = []
             for st in node.body:
                 if isinstance(st, ast.If) and not st.orelse and len(st.body) == 1 and isinstance(st.body[0], ast.Break):
@@ -215,6 +262,7 @@ class _N(ast.NodeTransformer):
             res2.append(st)
             i += 1
         res = self._flag_to_else(res2)
+        res = self._loop_to_anyall(res)
         if not res:
             res = [ast.copy_location(ast.Pass(), stmts[0])] if stmts else []
         return res
@@ -270,6 +318,47 @@ class _N(ast.NodeTransformer):
                     out.append(loop)
                     i += 3
                     continue
+            out.append(st)
+            i += 1
+        return out
+
+    def _loop_to_anyall(self, stmts: List[ast.stmt]) -> List[ast.stmt]:
+        """N16:  for t in it: if C: return <const a>      ->   return any(C for t in it)        (a, b) = (True, False)
+                 return <const b>                              return all(not C for t in it)    (a, b) = (False, True)
+        (loop without else/break/continue whose only statement is the test; the return follows the loop directly)"""
+        out: List[ast.stmt] = []
+        i = 0
+        while i < len(stmts):
+            st = stmts[i]
+            nxt = stmts[i + 1] if i + 1 < len(stmts) else None
+            if isinstance(st, ast.For) and not st.orelse and len(st.body) == 1 and isinstance(st.body[0], ast.If) \
+                    and not st.body[0].orelse and len(st.body[0].body) == 1 and isinstance(st.body[0].body[0], ast.Return) \
+                    and isinstance(st.body[0].body[0].value, ast.Constant) and isinstance(st.body[0].body[0].value.value, bool) \
+                    and isinstance(nxt, ast.Return) and isinstance(nxt.value, ast.Constant) and isinstance(nxt.value.value, bool) \
+                    and nxt.value.value != st.body[0].body[0].value.value:
+                c = st.body[0].test
+                inner = st.body[0].body[0].value.value
+                gen = ast.GeneratorExp(elt=c if inner else _negate(c),
+                                       generators=[ast.comprehension(target=st.target, iter=st.iter, ifs=[], is_async=0)])
+                call = ast.Call(func=ast.Name(id="any" if inner else "all", ctx=ast.Load()), args=[gen], keywords=[])
+                out.append(ast.copy_location(ast.Return(value=ast.copy_location(call, st)), st))
+                i += 2
+                continue
+            # the same scan written with break / else:   for t in it: if C: break   else: return <b>   ;   return <a>
+            if isinstance(st, ast.For) and len(st.body) == 1 and isinstance(st.body[0], ast.If) and not st.body[0].orelse \
+                    and len(st.body[0].body) == 1 and isinstance(st.body[0].body[0], ast.Break) \
+                    and len(st.orelse) == 1 and isinstance(st.orelse[0], ast.Return) and isinstance(st.orelse[0].value, ast.Constant) \
+                    and isinstance(st.orelse[0].value.value, bool) \
+                    and isinstance(nxt, ast.Return) and isinstance(nxt.value, ast.Constant) and isinstance(nxt.value.value, bool) \
+                    and nxt.value.value != st.orelse[0].value.value:
+                c = st.body[0].test
+                found = nxt.value.value           # value returned when some element satisfies C
+                gen = ast.GeneratorExp(elt=c if found else _negate(c),
+                                       generators=[ast.comprehension(target=st.target, iter=st.iter, ifs=[], is_async=0)])
+                call = ast.Call(func=ast.Name(id="any" if found else "all", ctx=ast.Load()), args=[gen], keywords=[])
+                out.append(ast.copy_location(ast.Return(value=ast.copy_location(call, st)), st))
+                i += 2
+                continue
             out.append(st)
             i += 1
         return out
